@@ -25,8 +25,9 @@ Sub-checks
 Translator tie (regen_closures): gen/c04_py2coq.py regenerates, from the CURRENT source, the flag handling / argument forwarding /
   callee names of the six QOperation.func_calc_proj_* factories, the assembly rule of MProcess.calc_proj_ineq_constraint_with_var, the integer
   layout of mprocess.convert_var_to_hss / convert_hss_to_var, the default flag of the eight static calc_proj_*_constraint_with_var and the
-  index / slice assignments (on a copy) of State / Gate.calc_proj_eq_constraint(_with_var);
-  coq/gen/C04_Equiv.v (16 theorems) is re-checked against that text on every run; if the tie breaks the `closures` sweep is widened.
+  index / slice assignments (on a copy) of State / Gate.calc_proj_eq_constraint(_with_var) and the loop skeleton + array arithmetic of
+  Povm / MProcess.calc_proj_eq_constraint(_with_var) (MProcess on a deep copy);
+  coq/gen/C04_Equiv.v (18 theorems) is re-checked against that text on every run; if the tie breaks the `closures` sweep is widened.
 
 Tolerances (documented constants)
   TOL_EQ    1e-9 * max(1, scale)        model vs implementation, equality projections (rounding is ~1e-16*scale)
@@ -611,7 +612,7 @@ def chk_eq(ctx, case):
 
 
 def sub_eq(ctx):
-    cases = gen_eq_cases(ctx, ctx.n(300, 2000))
+    cases = gen_eq_cases(ctx, ctx.n(240, 2000))
     ctx.sample("eq", dict(cases[0], data=cases[0]["data"][:8]))
     ctx.run_cases("eq", chk_eq, cases)
 
@@ -826,7 +827,7 @@ def ineq_plan(ctx):
 
 
 def sub_ineq(ctx):
-    cases = gen_ineq_cases(ctx, ctx.n(190, 800), ineq_plan(ctx))
+    cases = gen_ineq_cases(ctx, ctx.n(150, 800), ineq_plan(ctx))
     if not ctx.quick:
         # qubit x qutrit gates / instruments: 36 x 36 Choi matrices, the exact decision takes several seconds each
         cases += gen_ineq_cases(ctx, 2, [("gate", "qt", 1)]) + gen_ineq_cases(ctx, 1, [("gate", "tq", 1)]) + gen_ineq_cases(ctx, 1, [("mprocess", "qt", 1)])
@@ -1057,7 +1058,7 @@ def sub_closures(ctx):
     cases = []
     plan = [("state", "1q"), ("povm", "1q"), ("gate", "1q"), ("mprocess", "1q"), ("state", "1t"), ("povm", "1t"), ("gate", "1t"), ("state", "2q"),
             ("povm", "2q"), ("mprocess", "1q"), ("gate", "1q"), ("state", "qt")]
-    for i in range(96 if getattr(ctx, "c04_tie_broken", False) else ctx.n(24, 160)):
+    for i in range(96 if getattr(ctx, "c04_tie_broken", False) else ctx.n(20, 160)):
         T, sk = plan[i % len(plan)]
         d = get_sys(sk).dim
         m = rng.randint(2, 4) if T in ("povm", "mprocess") else 1
@@ -1119,7 +1120,7 @@ def chk_eigclip(ctx, case):
 def sub_eigclip(ctx):
     plan = [("state", "1q", 3), ("state", "1t", 3), ("state", "2q", 3), ("state", "qt", 2), ("povm", "1q", 3), ("povm", "1t", 3), ("povm", "2q", 2),
             ("gate", "1q", 4), ("gate", "1t", 2), ("gate", "2q", 0.7), ("mprocess", "1q", 3), ("mprocess", "1t", 0.7)]
-    cases = gen_ineq_cases(ctx, ctx.n(50, 400), plan)
+    cases = gen_ineq_cases(ctx, ctx.n(40, 400), plan)
     ctx.sample("eigclip", dict(cases[0], data=cases[0]["data"][:8]))
     ctx.run_cases("eigclip", chk_eigclip, cases)
 
